@@ -569,3 +569,36 @@ def build_processors_unit(u: Unit):
                     good = good and len(sets) == nargs and set(got) == set(want) and all(z3.eq(got[k], want[k]) for k in want)
                 u.oblige(p, f"build_processors.own_input_arguments[{nargs}x{nvals}]", bool(good), {}, FIT_REPLAY)
             u.cover(f"build_processors.cover[{nargs}x{nvals}]", ps, lambda p: p.kind == "return")
+
+
+@unit("C11", "resimulation")
+def resimulation(u: Unit):
+    """Re-simulating reported parameters (_apply_parameters, used for the champions after the last evolution) runs the SAME
+    exposure as fitness does for that processor: update_processor(parameter, processor), the problem's readout and pipeline
+    seed — so, given determinism for a fixed seed (C04), it reproduces the data the reported fitness was computed from."""
+    rec = {}
+    cfg, _ = FM.mk_cfg(u, rec)
+    fi = u.fn(f"{FM.FD}::ModelFittingDataTree._apply_parameters")
+
+    def setup(ex):
+        args, _kw = FM.setup(u, ex)
+        rec.clear()
+        ex.hold = {"proc": VSym("fitproc", z3.Int("some_processor")), "param": VOpaque("xr", z3.Int("reported_parameters"), {"label": "parameters"})}
+        return [args[0]], {"processor": ex.hold["proc"], "parameter": ex.hold["param"]}
+    ps = u.paths(fi, setup, cfg, label="ModelFittingDataTree._apply_parameters")
+    for p in ps:
+        if p.kind != "return":
+            u.oblige(p, "resimulation.no_raise", False, {"exc": p.exc_name()}, FIT_REPLAY)
+            continue
+        upd, runs = rec.get("upd", []), rec.get("runs", [])
+        ok = len(upd) == 1 and upd[0][0] is p.ex.hold["param"] and upd[0][1] is p.ex.hold["proc"] and len(runs) == 1
+        u.oblige(p, "resimulation.applies_the_reported_parameters", bool(ok), {}, FIT_REPLAY)
+        if not ok:
+            continue
+        kw = runs[0]
+        me = p.st.cell(p.ex.fit["self"]).fields
+        same = isinstance(kw.get("processor"), VSym) and z3.eq(kw["processor"].t, FM.UPD(z3.Int("reported_parameters"), z3.Int("some_processor"))) and kw.get("readout") is p.ex.fit["readout"] \
+            and kw.get("pipeline_seed") is me["pipeline_seed"] and isinstance(kw.get("outputs"), VNone)
+        u.oblige(p, "resimulation.same_exposure_as_fitness", bool(same), {}, FIT_REPLAY)
+        u.oblige(p, "resimulation.returns_that_run", bool(isinstance(p.value, VOpaque) and p.value.t is not None and z3.eq(p.value.t, FM.RUN(FM.UPD(z3.Int("reported_parameters"), z3.Int("some_processor"))))), {}, FIT_REPLAY)
+    u.cover("resimulation.cover", ps, lambda p: p.kind == "return")
